@@ -298,6 +298,8 @@ func (x *Extractor) walkAt(fn *ssa.Function, e *env, mf *MethodFacts, via []stri
 					mf.FieldsSet[g.Name()] = append(mf.FieldsSet[g.Name()], describeVal(x.eval(ins.Val, e)))
 					mf.SetOrder = append(mf.SetOrder, g.Name())
 				}
+			case *ssa.MapUpdate:
+				x.recordKeyedSet(ins, e, mf)
 			case *ssa.UnOp:
 				if fa, ok := ins.X.(*ssa.FieldAddr); ok && ins.Op == token.MUL && x.isConvPtr(fa.X.Type()) {
 					mf.FieldsRead[structFieldName(fa.X.Type(), fa.Field)] = true
@@ -448,6 +450,8 @@ func (x *Extractor) walkEffects(fn *ssa.Function, e *env, mf *MethodFacts, seen 
 					mf.FieldsSet[g.Name()] = append(mf.FieldsSet[g.Name()], describeVal(x.eval(ins.Val, e)))
 					mf.SetOrder = append(mf.SetOrder, g.Name())
 				}
+			case *ssa.MapUpdate:
+				x.recordKeyedSet(ins, e, mf)
 			case *ssa.UnOp:
 				if fa, ok := ins.X.(*ssa.FieldAddr); ok && ins.Op == token.MUL && x.isConvPtr(fa.X.Type()) {
 					mf.FieldsRead[structFieldName(fa.X.Type(), fa.Field)] = true
@@ -601,5 +605,103 @@ func init() {
 				}
 			}
 		}
+	}
+}
+
+// keyedFieldName: an entry of a map the converter keeps in one of its fields, under a
+// constant key, is treated like a field of its own ("flags[echo]").
+func keyedFieldName(field, key string) string {
+	if i := strings.Index(key, ":"); i >= 0 {
+		key = key[i+1:]
+	}
+	var sb strings.Builder
+	for _, r := range key {
+		if r == '_' || r >= '0' && r <= '9' || r >= 'a' && r <= 'z' || r >= 'A' && r <= 'Z' {
+			sb.WriteRune(r)
+		} else {
+			sb.WriteRune('_')
+		}
+	}
+	return field + "[" + sb.String() + "]"
+}
+
+// convFieldMap: v is the load of a map-typed field of the converter object.
+func (x *Evaluator) convFieldMap(v ssa.Value) (string, bool) {
+	u, ok := v.(*ssa.UnOp)
+	if !ok || u.Op != token.MUL {
+		return "", false
+	}
+	fa, ok := u.X.(*ssa.FieldAddr)
+	if !ok {
+		return "", false
+	}
+	// the object whose methods are being evaluated: a named struct of the package under analysis, not a local
+	if _, isLocal := fa.X.(*ssa.Alloc); isLocal {
+		return "", false
+	}
+	pt, ok := fa.X.Type().Underlying().(*types.Pointer)
+	if !ok {
+		return "", false
+	}
+	named, ok := pt.Elem().(*types.Named)
+	if !ok || x.Pkg == nil || named.Obj().Pkg() != x.Pkg.Pkg {
+		return "", false
+	}
+	if _, isMap := u.Type().Underlying().(*types.Map); !isMap {
+		return "", false
+	}
+	return structFieldName(fa.X.Type(), fa.Field), true
+}
+
+// constKeys: the constant keys a value can stand for (one constant, or one of finitely many:
+// the element of a list written out at the call).
+func (x *Evaluator) constKeys(v Val) []string {
+	if k, ok := constKeyOf(v); ok {
+		return []string{k}
+	}
+	// "the current element" of a list written out at the call: every one of its elements
+	if sv, ok := v.(StrV); ok && len(sv.T) == 1 {
+		if eo, ok := sv.T[0].(ElemOf); ok {
+			if l := x.lists[eo.ID]; l != nil && l.IsFinite {
+				var out []string
+				for _, el := range l.Finite {
+					ks := x.constKeys(el)
+					if ks == nil {
+						return nil
+					}
+					out = append(out, ks...)
+				}
+				return out
+			}
+		}
+	}
+	if sv, ok := v.(StrV); ok {
+		vs, complete := sv.T.Expand(32)
+		if !complete {
+			return nil
+		}
+		var out []string
+		for _, t := range vs {
+			s, ok := litOnly(t)
+			if !ok {
+				return nil
+			}
+			out = append(out, "s:"+s)
+		}
+		return out
+	}
+	return nil
+}
+
+func (x *Extractor) recordKeyedSet(mu *ssa.MapUpdate, e *env, mf *MethodFacts) {
+	field, ok := x.convFieldMap(mu.Map)
+	if !ok {
+		return
+	}
+	val := describeVal(x.eval(mu.Value, e))
+	for _, k := range x.constKeys(x.eval(mu.Key, e)) {
+		name := keyedFieldName(field, k)
+		mf.FieldsSet[name] = append(mf.FieldsSet[name], val)
+		mf.SetOrder = append(mf.SetOrder, name)
 	}
 }
